@@ -2,5 +2,6 @@ SPECIFICATION Spec
 CONSTANTS
   MaxLen = 6
   Design = "reset0"
+  Alphabet = {"x", "n"}
 INVARIANT Refines
 INVARIANT LoopInvariant
